@@ -141,20 +141,33 @@ func vxRawWrite(c *fsCache, key string, b []byte) {
 	}
 }
 
-// vxCiphertextOnly: file is exactly nonce || Seal(nonce, v) for a fresh random nonce
+// vxCiphertextOnly: file is exactly nonce || Seal(nonce, . v) for the sealIdx-th Seal
 // (symgo); natively: the expected length and no occurrence of v.
 func vxCiphertextOnly(file, v []byte, sealIdx int) bool {
 	if vxIsSymbolic() {
-		if sealIdx >= len(vxSeals) || sealIdx >= len(vxRandLog) {
+		if sealIdx >= len(vxSeals) {
 			return false
 		}
 		s := vxSeals[sealIdx]
-		if len(s.nonce) != 12 || !vxBytesEq(s.nonce, vxRandLog[sealIdx]) || len(s.pt) < len(v) || !vxBytesEq(s.pt[len(s.pt)-len(v):], v) {
+		if len(s.nonce) != 12 || len(s.pt) < len(v) || !vxBytesEq(s.pt[len(s.pt)-len(v):], v) {
 			return false
 		}
 		return vxBytesEq(file, append(append([]byte(nil), s.nonce...), s.ct...))
 	}
 	return len(file) >= len(v)+28 && len(file) <= len(v)+28+16 && (len(v) < 4 || !bytes.Contains(file, v))
+}
+
+// vxNonceFresh: the nonce of the sealIdx-th Seal is exactly the sealIdx-th draw of 12
+// bytes from the random source, and nothing else was drawn (symgo; natively true - the
+// replay compares the files instead).
+func vxNonceFresh(sealIdx int) bool {
+	if !vxIsSymbolic() {
+		return true
+	}
+	if sealIdx >= len(vxSeals) || len(vxRandLog) != len(vxSeals) {
+		return false
+	}
+	return vxBytesEq(vxSeals[sealIdx].nonce, vxRandLog[sealIdx])
 }
 
 func vxResetCrypto() {
@@ -197,17 +210,13 @@ func VxC17_AtRest() {
 	} else {
 		vxAssert(false, "C17/open-with-usable-key-failed")
 	}
-	// the same value again: a new nonce, a different file
+	// the same value again, and once more through a store opened again (a new process):
+	// every write draws a fresh nonce, so the three files differ
+	fresh := vxNonceFresh(0)
 	vxAssert(c.Set("k", v) == nil, "C17/set-failed")
 	f2 := vxRawRead(c, "k")
 	vxAssert(vxCiphertextOnly(f2, v, 1), "C17/file-is-not-ciphertext-only")
-	if vxIsSymbolic() {
-		// the second nonce is the second, independent draw from the random source
-		vxAssert(len(vxRandLog) == 2 && len(vxSeals) == 2, "C17/nonce-not-drawn-per-write")
-	} else {
-		vxAssert(!bytes.Equal(f1, f2) && !bytes.Equal(f1[:12], f2[:12]), "C17/same-ciphertext-for-two-writes")
-	}
-	// and once more through a store opened again (a new process): still a fresh nonce
+	fresh = vxAnd(fresh, vxNonceFresh(1))
 	c3, err3 := vxOpenHow(how, key)
 	if err3 != nil {
 		vxAssert(false, "C17/open-with-usable-key-failed")
@@ -216,11 +225,12 @@ func VxC17_AtRest() {
 	vxAssert(c3.Set("k", v) == nil, "C17/set-failed")
 	f3 := vxRawRead(c3, "k")
 	vxAssert(vxCiphertextOnly(f3, v, 2), "C17/file-is-not-ciphertext-only")
-	if vxIsSymbolic() {
-		vxAssert(len(vxRandLog) == 3 && len(vxSeals) == 3, "C17/nonce-not-drawn-per-write")
-	} else {
-		vxAssert(!bytes.Equal(f3, f1) && !bytes.Equal(f3, f2) && !bytes.Equal(f3[:12], f1[:12]) && !bytes.Equal(f3[:12], f2[:12]), "C17/same-ciphertext-for-two-writes")
+	fresh = vxAnd(fresh, vxNonceFresh(2))
+	if !vxIsSymbolic() {
+		fresh = !bytes.Equal(f1, f2) && !bytes.Equal(f3, f1) && !bytes.Equal(f3, f2) &&
+			!bytes.Equal(f1[:12], f2[:12]) && !bytes.Equal(f3[:12], f1[:12]) && !bytes.Equal(f3[:12], f2[:12])
 	}
+	vxAssert(fresh, "C17/same-ciphertext-for-two-writes")
 	vxCover("C17/at-rest")
 }
 
